@@ -18,7 +18,7 @@ CLAIMED = {
 		note='Trusted: SQLAlchemy model (Session.flush/commit are the only write paths of the ORM; SELECTs do not modify an SQLite file), h5py default mode. Bounded only: byte identity of the files over command histories.',
 		design='3/C18'),
 	'C06': dict(
-		text='Lemmas over the C01 contract of calc_signature (result = strictly increasing array of exactly the x with sig(kmerspec, contig, x) for SOME contig; re-verified here for the default accumulator): reverse-complementing a contig leaves sig unchanged (forward matches become the mirrored reverse matches with the same k-mer index: inductive lemma encrc(RC(s)) = enc(s), complement is an involution), letter case leaves it unchanged (sig depends on the bytes through up() only), the union is invariant under any rearrangement of signature-equivalent contigs, and two strictly increasing arrays with the same members are the same array - so the signature array is identical; the union clause / no k-mer across contigs IS the postcondition. File glue verified over an assumed stream model: guess_compression decides by the first two CONTENT bytes for every path string, _open_auto / open_compressed (24 mode x compression instances incl. the ValueError cases) / SequenceFile.open / SequenceFile.parse build text>gzip>file exactly when the content starts with 1f 8b and hand the parser the stream over the file\'s own path and format; calc_file_signature = calc_signature over the sequences of ALL records in file order (sig opaque at this level). Line width, CRLF, final newline, gzip decoding are decided inside Bio.SeqIO / gzip / TextIOWrapper (external): BOUNDED stand-in only (real calc_file_signature on generated files under all rewrites).',
+		text='Lemmas over the C01 contract of calc_signature (result = strictly increasing array of exactly the x with sig(kmerspec, contig, x) for SOME contig; re-verified here for the default accumulator): reverse-complementing a contig leaves sig unchanged (forward matches become the mirrored reverse matches with the same k-mer index: inductive lemma encrc(RC(s)) = enc(s), complement is an involution), letter case leaves it unchanged (sig depends on the bytes through up() only), the union is invariant under any rearrangement of signature-equivalent contigs, and two strictly increasing arrays with the same members are the same array - so the signature array is identical; the union clause / no k-mer across contigs IS the postcondition. File glue verified over an assumed stream model: guess_compression decides by the first two CONTENT bytes for every path string, _open_auto / open_compressed (24 mode x compression instances incl. the ValueError cases) / SequenceFile.open / SequenceFile.parse build text>gzip>file exactly when the content starts with 1f 8b and hand the parser the stream over the file\'s own path and format; calc_file_signature = calc_signature over the sequences of ALL records in file order (sig opaque at this level). Line width, CRLF, final newline, gzip decoding are decided inside Bio.SeqIO / gzip / TextIOWrapper (external): BOUNDED stand-in only (real calc_file_signature on generated files under all rewrites). ClosingIterator.close / __exit__ / __enter__ are verified not to return a true value (a context manager that did would swallow the exception of a file failing part-way: C13).',
 		note='Trusted: C01 base, induction as a proof rule (base/step obligations), stream model. Bounded only: everything the FASTA parser / gzip / text decoding decide.',
 		design='3/C06'),
 	'C11': dict(
@@ -34,7 +34,7 @@ CLAIMED = {
 		note='Trusted: C02 base (D as the kernel value), OpenMP/Cython prange semantics, NumPy views, abstract collection/2-d array model for the matrix function. Bounded only: pairwise, caller buffers, plain-list references.',
 		design='3/C05'),
 	'C20': dict(
-		text='AdvancedIndexingMixin.__getitem__ is verified for every index kind (int, all eight None/int slice shapes, ill-typed slice fields, step 0, integer arrays of seven dtypes, boolean masks, float arrays, lists, the empty list) against an abstract sequence: result item j = item norm(index[j]) (Python negative-index rule), slices select range(*indices(n)), masks select the non-zero positions in order, IndexError/TypeError/ValueError exactly as a list/NumPy would, and the caller\'s index array is unchanged; _check_index, _getitem_slice, _getitem_bool_array separately. The NumPy contract for np.add carries the fixed width of the output dtype: on the original tree the int8/int16/int32 instances failed (wrap-around), the bounded run replayed it (130 signatures, int8 index -1), a fix: commit widened the copy, and all instances now discharge. The concrete hooks of SignatureList / ConcatenatedSignatureArray are verified to refine the abstract ones; the remaining container code is bounded only (plain-list differential, labelled).',
+		text='AdvancedIndexingMixin.__getitem__ is verified for every index kind (int, all eight None/int slice shapes, ill-typed slice fields, step 0, integer arrays of seven dtypes, boolean masks, float arrays, lists, the empty list) against an abstract sequence: result item j = item norm(index[j]) (Python negative-index rule), slices select range(*indices(n)), masks select the non-zero positions in order, IndexError/TypeError/ValueError exactly as a list/NumPy would, and the caller\'s index array is unchanged; _check_index, _getitem_slice, _getitem_bool_array separately. The NumPy contract for np.add carries the fixed width of the output dtype: on the original tree the int8/int16/int32 instances failed (wrap-around), the bounded run replayed it (130 signatures, int8 index -1), a fix: commit widened the copy, and all instances now discharge. The concrete hooks of SignatureList / ConcatenatedSignatureArray are verified to refine the abstract ones; the remaining container code is bounded only (plain-list differential, labelled). A second defect was found by the bounded run (seed sweep): uint64 index arrays / scalars raised on concatenated and HDF5-backed collections (uint64 + int promoted to float); repaired by a second fix: commit, and every integer dtype is now enumerated as array and scalar on every container.',
 		note='Trusted: NumPy/slice contracts listed in the evidence; len < 2^63. Bounded only: _getitem_int_array, contiguous slice fast path, construction, HDF5-backed collections, del/insert, equality.',
 		design='3/C20'),
 	'C10': dict(
@@ -78,7 +78,7 @@ CLAIMED = {
 		note='Trusted: C07 base for the compiled encoders, library contracts for bytes.find/upper/slicing and numpy zeros/flatnonzero/astype/fromiter/sort, generators as yielded sequences. Bounds in requires: k <= 32, lengths < 2^31.',
 		design='3/C01'),
 	'C07': dict(
-		text='Every obligation generated from the current text of kmers.pyx / kmers.py / seq.py (loop invariants for the four kernels, C-integer range and in-bounds obligations, exception protocol of the wrappers) plus inductive lemmas for the two inverses, the revcomp involution and rc-index consistency is discharged by z3 for all k <= 32, all 256 byte values and all sequence lengths < 2^31. A bounded run of the compiled kernels against an independent executable spec accompanies it (never counted as proved).',
+		text='Every obligation generated from the current text of kmers.pyx / kmers.py / seq.py (loop invariants for the four kernels, C-integer range and in-bounds obligations, exception protocol of the wrappers) plus inductive lemmas for the two inverses, the revcomp involution and rc-index consistency is discharged by z3 for all k <= 32, all 256 byte values and all sequence lengths < 2^31. A bounded run of the compiled kernels against an independent executable spec accompanies it (never counted as proved). The names under which the library itself uses these functions (gambit.seq.revcomp, gambit.kmers.revcomp, gambit.kmers.index_to_kmer) are targets too: re-exports are followed to their definition on every run, so rebinding one of them to another function is verified against the same contract.',
 		note='Trusted: Cython/gcc translation and that the pre-built .so corresponds to the .pyx (Cython is not installed, so the binary cannot be rebuilt); C integer model; library contracts for bytearray/bytes/str.encode. Termination by decreases clauses.',
 		design='3/C07'),
 	'C02': dict(
